@@ -52,6 +52,21 @@ CHECKS = {
    text='Static rule discharge: on every path of every send method and of every (event,state) cell the sent counters move by exactly the messages written per type; on every dispatch path the received counter of the frame type moves by 1 iff the frame has the minimum length of its type; only BGP methods write the dictionaries and the REST view returns the tracked protocol. By induction over events the counters equal the wire counts for every history. One known finding (short OPEN frames are counted).',
    design='DESIGN.md section 3 C18',
    note='Same trusted base as C01; effects inside the internal-queue drain loop are seen for one iteration.'),
+ 'C08': dict(
+   technique='ByteLen analysis: every construct function abstractly interpreted to symbolic concatenations; linear-form equality between each len()-derived field and the bytes it covers; symbolic TLV-stream walker for literal lengths (tunnel encapsulation, capabilities), MP_REACH layout, attribute-header/flag table rule, finite partition of prefix widths',
+   text='Static rule discharge on all 65 construct functions: message headers (marker, total length, type), attribute headers (RFC category flags, type code, extended-length bit iff 2-octet length, length = value size), every len()-computed field equals the run of bytes that follows it on every path (0/1 loop iteration, linear arithmetic), literal TLV lengths equal literal bodies, prefixes occupy ceil(len/8) octets for every length, and no construct path returns None silently. Value-range overflow and the 4096 limit are not decided.',
+   design='DESIGN.md section 3 C08',
+   note='Trusted: struct.calcsize, netaddr .packed being 4 or 16 octets, transcribed RFC flag categories / TLV grammars in sa/rules/c08.py.'),
+ 'C09': dict(
+   technique='finite partition of value lengths 0..40 through the abstract interpreter for every fixed-length attribute decoder (acceptance sets vs RFC sets), constant folding of the trailing-bit mask for r=1..7, AST extraction of the dispatch table vs oracle, structural rule for generic extended-length handling',
+   text='Static rule discharge of the decidable part: extended length is selected from the flags before and independent of the type dispatch, the trailing-bit mask is the top-r-bits mask, the type dispatch table equals the oracle (AS4 attributes always 4-octet), each fixed-length decoder accepts exactly the RFC length set, ORIGIN accepts {0,1,2}, prefix length > 32 and bad segment types are rejected. Value-level agreement with a reference encoder is not decided.',
+   design='DESIGN.md section 3 C09',
+   note='Trusted: oracle tables in sa/rules/c09.py; the interpreter model of struct/slices in sa/prims.py.'),
+ 'C11': dict(
+   technique='loop-progress proof by abstract interpretation: every decoder while-loop is run for one iteration on symbolic input and on each back-edge path a cursor of the loop test must be a strict suffix of its previous value (slice offset with interval lower bound >= 1); call-cycle and exception-funnel AST rules',
+   text='Static rule discharge: each of the 42 decoder while-loops makes progress on every path back to its head (so it terminates on every finite input), recursion through TLV registries passes strict sub-slices, for-loops do not grow their collection, and Update.parse funnels every decoder exception into a sub-error result. A quantitative work bound is not decided.',
+   design='DESIGN.md section 3 C11',
+   note='Trusted: interval transfer functions of sa/prims.py; helper return values are taken from one loop iteration (their lower bounds only grow with more iterations).'),
 }
 
 NOT_APPLICABLE = {}
